@@ -328,3 +328,45 @@ def negative_int_operands(wa=3, k=-3):
             bad.append(nm)
     return dict(failed=bool(bad), observed=dict(accepted_differently_from_Const=bad, Const_accepted=const_ok),
                 expected='every form accepted iff Const(%d) is' % k)
+
+
+# ----------------------------------------------------------------------------- signed Const objects / literal runs
+def _sconst(m):
+    """(value pattern, bitwidth) of Const(-m, signed=True), m >= 1: minimal two's-complement width"""
+    bw = max((m - 1).bit_length() + 1, 1)
+    return (1 << bw) - m, bw
+
+
+def _sck_build(p):
+    a = pyrtl.Input(p['wa'], 'a')
+    m = p['m']
+    sc = pyrtl.Const(-m, signed=True)
+    wide = pyrtl.WireVector(p['wa'] + 3, 'wide')
+    wide <<= sc                                   # assignment zero-extends: a signed Const is a raw bit pattern
+    return _outs([('add', a + sc), ('radd', sc + a), ('and', a & sc), ('or', a | sc), ('xor', a ^ sc), ('sub', a - sc),
+                  ('lt', a < sc), ('gt', a > sc), ('eq', a == sc), ('mul', a * sc),
+                  ('sel', pyrtl.select(a[0], sc, a)), ('assign', wide),
+                  ('cat_lit', pyrtl.concat(a, 1, 2)), ('cat_lit3', pyrtl.concat(a[0], 3, 1, "2'b10")),
+                  ('cat_lit_mid', pyrtl.concat(1, 5, a)), ('cat_list', pyrtl.concat_list([a, 2, 1]))])
+
+
+def _sck_spec(o, p, ins):
+    a, wa = ins['a'], p['wa']
+    v, bw = _sconst(p['m'])
+    mm = max(wa, bw)
+    return dict(add=a + v, radd=a + v, sub=(a - v) % (1 << (mm + 1)), mul=a * v, xor=a ^ v, lt=o.ite(a < v, 1, 0),
+                gt=o.ite(a > v, 1, 0), eq=o.ite(a == v, 1, 0), sel=o.ite(a % 2 != 0, v, a), assign=v,
+                cat_lit=(a << 3) + (1 << 2) + 2, cat_lit3=((a % 2) << 5) + (3 << 3) + (1 << 2) + 2,
+                cat_lit_mid=(1 << (3 + wa)) + (5 << wa) + a, cat_list=(1 << (2 + wa)) + (2 << wa) + a,
+                **{'and': a & v, 'or': a | v})
+
+
+def _sck_lens(p):
+    wa = p['wa']
+    v, bw = _sconst(p['m'])
+    mm = max(wa, bw)
+    return dict(add=mm + 1, radd=mm + 1, sub=mm + 1, mul=wa + bw, xor=mm, lt=1, gt=1, eq=1, sel=mm, assign=wa + 3,
+                cat_lit=wa + 3, cat_lit3=6, cat_lit_mid=wa + 4, cat_list=wa + 3, **{'and': mm, 'or': mm})
+
+
+case('ops.signed_const_and_literals', _sck_spec, W=lambda p: 2 * (p['wa'] + 8) + 6, lens=_sck_lens)(_sck_build)
